@@ -660,6 +660,7 @@ func (r *runner) finish(nsh int, wall time.Duration) int {
 
 	unlisted, known := 0, 0
 	var knownSeen []string
+	os.RemoveAll(filepath.Join(r.o.VerifDir, "replays", r.o.Prop))
 	os.MkdirAll(filepath.Join(r.o.VerifDir, "replays", r.o.Prop), 0755)
 	for _, k := range vkeys {
 		g := viol[k]
